@@ -8,3 +8,5 @@ open Gossamer.C04
 #print axioms C04_writeDirty_stores
 #print axioms C04_writeDirty_coherent
 #print axioms C04_writeDirty_getFromDB
+#print axioms C04_incremental_inv
+#print axioms C04_incremental_partial
